@@ -369,6 +369,17 @@ def random_raw(rng: random.Random, malformed: bool = False) -> dict:
             if rng.random() >= p:
                 va[key] = rng.choice(pool)
         vars_.append({'name': n, 'dims': dims, 'attrs': va, 'coord': rng.random() < 0.4})
+    if rng.random() < 0.3:
+        # a mesh topology variable (or two), somewhere in the order
+        for nm in ['MeshA', 'MeshB'][:rng.choice([1, 1, 2])]:
+            mv = {'name': nm, 'dims': [], 'coord': rng.random() < 0.15,
+                  'attrs': {'cf_role': rng.choice(role_pool[:1] * 4 + role_pool),
+                            'topology_dimension': rng.choice(td_pool)}}
+            if rng.random() < 0.15:
+                del mv['attrs']['topology_dimension']
+            vars_.insert(rng.randint(0, len(vars_)), mv)
+        if rng.random() < 0.7:
+            attrs['Conventions'] = rng.choice(['UGRID-1.0', 'CF-1.6, UGRID-1.0', 'UGRID'])
     return {'attrs': attrs, 'sizes': sizes, 'vars': vars_}
 
 
